@@ -71,6 +71,7 @@ type interpreter struct {
 	held            map[*value]int
 	maxConcOverride int
 	jsonDecoders    map[*value]*nativeDecoder
+	waitGroups      map[*value]int
 
 	// statistics (per worker, merged by the driver)
 	FuncInstrs map[*ssa.Function]int64
@@ -475,7 +476,7 @@ func visitInstr(fr *frame, instr ssa.Instruction) continuation {
 		panic("unreachable") // phis are processed at block entry
 
 	case *ssa.Select:
-		panic(pathEnd{kind: "unsupported", msg: "select statement"})
+		fr.env[instr] = i.selectStmt(fr, instr)
 
 	default:
 		panic(fmt.Sprintf("unexpected instruction: %T", instr))
